@@ -340,7 +340,7 @@ def cases(ctx):
                 yield "frames", {"frames": fr}
             i += 1
     # Comm-B with sparse payloads (satisfy several register formats -> tell branches)
-    for k in range(ctx.share(120 if quick else 600)):
+    for k in range(ctx.share(120 if quick else 3000)):
         fr = []
         for _ in range(40):
             mb = rng.getrandbits(56) & rng.getrandbits(56) & rng.getrandbits(56)
@@ -348,7 +348,7 @@ def cases(ctx):
         yield "frames", {"frames": fr}
     # valid register contents so that tell() reaches every BDS branch
     from . import C12
-    for k in range(ctx.share(60 if quick else 300)):
+    for k in range(ctx.share(60 if quick else 1500)):
         fr = []
         for reg in ("BDS10", "BDS17", "BDS20", "BDS30", "BDS40", "BDS44", "BDS45", "BDS50", "BDS60"):
             for _ in range(4):
